@@ -153,6 +153,11 @@ def run_td7_case(case):
                 return res
             n_copies += 1
             j += 1
+        elif j < len(calls) and calls[j]["k"] == "copy":
+            res.violation("C15/td7/copy_without_flag",
+                          f"checkpoint copy at env step {calls[j]['n']} although "
+                          f"the assessment did not flag an update")
+            return res
         n_train = 0
         while j < len(calls) and calls[j]["k"] == "train" and calls[j]["n"] == c["n"]:
             expected_epoch += 1
